@@ -64,6 +64,7 @@ def make_case(rng):
             prods = gram.gen_ll1_candidate(rng, terms)
             if not gram.left_recursion_cycle(prods) and gram.is_ll1(prods, 'E'):
                 break
+    prods = gram.shuffle_declaration_order(rng, prods)
     return cfg_id, terms, prods, kind
 
 
